@@ -87,9 +87,34 @@ class PEval:
                 isinstance(expr.value, ast.Name) and \
                 expr.value.id in self.enum_classes:
             return Enum(expr.value.id, expr.attr)
-        t = self.truth(expr, env, _from_value=True)
-        if t is not None:
-            return Const(t)
+        if isinstance(expr, ast.BinOp) and isinstance(
+                expr.op, (ast.Add, ast.Sub, ast.Mult)):
+            a, b = self.value(expr.left, env), self.value(expr.right, env)
+            if isinstance(a, Const) and isinstance(b, Const) and \
+                    isinstance(a.value, int) and isinstance(b.value, int) \
+                    and not isinstance(a.value, bool) and \
+                    not isinstance(b.value, bool):
+                if isinstance(expr.op, ast.Add):
+                    return Const(a.value + b.value)
+                if isinstance(expr.op, ast.Sub):
+                    return Const(a.value - b.value)
+                return Const(a.value * b.value)
+            return None
+        if isinstance(expr, ast.UnaryOp) and isinstance(expr.op, ast.USub):
+            a = self.value(expr.operand, env)
+            if isinstance(a, Const) and isinstance(a.value, int):
+                return Const(-a.value)
+            return None
+        if isinstance(expr, (ast.Compare, ast.BoolOp)) or (
+                isinstance(expr, ast.UnaryOp) and
+                isinstance(expr.op, ast.Not)) or (
+                isinstance(expr, ast.Call) and
+                isinstance(expr.func, ast.Name) and
+                expr.func.id == "isinstance"):
+            t = self.truth(expr, env, _from_value=True)
+            if t is not None:
+                return Const(t)
+            return None
         if isinstance(expr, ast.IfExp):
             c = self.truth(expr.test, env)
             if c is True:
